@@ -6,6 +6,7 @@ import (
 	"fmt"
 	"io"
 	"net/http"
+	"os"
 	"path/filepath"
 	"sort"
 	"strings"
@@ -22,14 +23,61 @@ import (
 // the CSI driver would.
 
 type snapRec struct {
-	name     string // short name given to the controller
-	disk     string // volume-snap-<name>.img
-	idle     bool   // no initiator write was in flight when it was taken
-	image    []uint64
-	wild     []bool
-	takenAt  time.Duration
-	replicas []string // addresses listed (non-ERR) right after it succeeded
-	deleted  bool
+	name    string // short name given to the controller
+	disk    string // volume-snap-<name>.img
+	idle    bool   // no initiator write was in flight when it was taken
+	image   []uint64
+	wild    []bool
+	takenAt time.Duration
+	holders map[string]bool // replicas that took it (or received it by rebuild)
+	deleted bool
+	// lost: a cold start elected a replica that never had this snapshot (it was
+	// detached because the snapshot call failed on it, no write followed, so the
+	// revision counters tie) and the holders were rebuilt from it. The election
+	// rule is C09's subject; C13 says nothing about a snapshot surviving that.
+	lost bool
+}
+
+// noteHolders records which attached replicas have the snapshot's files.
+func (cr *clRun) noteHolders(s *snapRec) {
+	if s.holders == nil {
+		s.holders = map[string]bool{}
+	}
+	for _, r := range cr.c.ctrl.ListReplicas() {
+		if r.Mode == types.ERR {
+			continue
+		}
+		for _, rn := range cr.c.reps {
+			if rn.addr == r.Address && rn.up {
+				if _, err := readFileTrim(filepath.Join(rn.dir, s.disk+".meta")); err == nil {
+					s.holders[rn.addr] = true
+				}
+			}
+		}
+	}
+}
+
+// electedAtColdStart: addr joined the list directly as RW (Controller.Start).
+func (cr *clRun) electedAtColdStart(addr string) {
+	var rn *repNode
+	for _, x := range cr.c.reps {
+		if x.addr == addr {
+			rn = x
+		}
+	}
+	if rn == nil {
+		return
+	}
+	cr.res.stat("cold_start_elections", 1)
+	for _, s := range cr.snaps {
+		if s.deleted || s.lost || s.holders[addr] {
+			continue
+		}
+		if _, err := readFileTrim(filepath.Join(rn.dir, s.disk+".meta")); err != nil {
+			s.lost = true
+			cr.res.stat("snapshot_lost_at_election_of_non_holder", 1)
+		}
+	}
 }
 
 func (cr *clRun) issueAdmin(i int, op Op) {
@@ -175,6 +223,7 @@ func (cr *clRun) judgeAdmin(a *adminOp, op Op, pre map[string]string, idleBefore
 			}
 		}
 		cr.snaps = append(cr.snaps, rec)
+		cr.noteHolders(rec)
 		cr.checkSnapshotsAcrossReplicas("after-snapshot")
 	case "resize":
 		newSize := int64(0)
@@ -369,7 +418,7 @@ func (cr *clRun) checkSnapshotsAcrossReplicas(when string) {
 	}
 	sort.Slice(rws, func(i, j int) bool { return rws[i].name < rws[j].name })
 	for _, s := range cr.snaps {
-		if s.deleted {
+		if s.deleted || s.lost {
 			continue
 		}
 		var ref []byte
@@ -385,6 +434,7 @@ func (cr *clRun) checkSnapshotsAcrossReplicas(when string) {
 			}
 			cr.compares++
 			cr.res.stat("cluster_snapshot_probes", 1)
+			s.holders[rn.addr] = true
 			if ref == nil {
 				ref, refName = img, rn.name
 				if s.idle {
@@ -430,6 +480,63 @@ func (cr *clRun) equalMasked(a, b []byte) (bool, int64) {
 		}
 	}
 	return true, -1
+}
+
+// shadowedBlocks: blocks that have data in some file above disk n in the chain.
+func shadowedBlocks(dir string, chain []string, n string, size int64) map[int64]bool {
+	out := map[int64]bool{}
+	for _, name := range chain {
+		if name == n {
+			break
+		}
+		f, err := os.Open(filepath.Join(dir, name))
+		if err != nil {
+			continue
+		}
+		rs, _ := dataRanges(f, size)
+		f.Close()
+		for _, r := range rs {
+			for b := r[0] / blk; b*blk < r[1]; b++ {
+				out[b] = true
+			}
+		}
+	}
+	return out
+}
+
+func (cr *clRun) diffOnlyInShadowedBlocks(a, b []byte, ra *repNode, cha []string, rb *repNode, chb []string, n string) bool {
+	sa := shadowedBlocks(ra.dir, cha, n, int64(len(a)))
+	sb := shadowedBlocks(rb.dir, chb, n, int64(len(b)))
+	m := len(a)
+	if len(b) < m {
+		m = len(b)
+	}
+	for s := 0; (s+1)*sect <= m; s++ {
+		if s < len(cr.everWild) && cr.everWild[s] {
+			continue
+		}
+		if !bytes.Equal(a[s*sect:(s+1)*sect], b[s*sect:(s+1)*sect]) {
+			bl := int64(s * sect / blk)
+			if !sa[bl] || !sb[bl] {
+				return false
+			}
+		}
+	}
+	return true
+}
+
+// sameSuffix: ch ends with exactly the members of suffix, in order.
+func sameSuffix(suffix, ch []string) bool {
+	if len(suffix) > len(ch) {
+		return false
+	}
+	off := len(ch) - len(suffix)
+	for i := range suffix {
+		if ch[off+i] != suffix[i] {
+			return false
+		}
+	}
+	return true
 }
 
 func firstDiffSector(a, b []byte) int64 {
@@ -583,8 +690,16 @@ func (cr *clRun) deepChecks(when string, promoted string) {
 			for _, n := range ch {
 				in[n] = true
 			}
-			for _, n := range base[1:] {
+			for bi, n := range base[1:] {
 				if !in[n] {
+					continue
+				}
+				// Folding a removed snapshot into its parent changes the parent's image.
+				// A replica that was away keeps its own files below the checkpoint, so
+				// the two may have folded different members: compare n only when
+				// everything from n's child downwards has the same names on both sides.
+				if !sameSuffix(base[bi:], ch) {
+					cr.res.stat("deep_snapshot_compare_skipped_chain_shape", 1)
 					continue
 				}
 				a, _, err1 := cr.snapshotImage(rws[0], n)
@@ -594,6 +709,17 @@ func (cr *clRun) deepChecks(when string, promoted string) {
 				}
 				cr.res.stat("deep_snapshot_compares", 1)
 				if eq, bad := cr.equalMasked(a, b); !eq {
+					// A replica that has been through a rebuild punches, out of its automatic
+					// snapshots, blocks that a newer file of its chain shadows (space
+					// reclamation: replica/diff_disk.go fullWriteAt, replica/backup.go preload);
+					// a replica that never reloaded does not. Such blocks are invisible in the
+					// volume image and in every user-created snapshot (both compared in full
+					// elsewhere), so only differences in blocks that are NOT shadowed on either
+					// side count here.
+					if cr.diffOnlyInShadowedBlocks(a, b, rws[0], chains[rws[0].name], rn, ch, n) {
+						cr.res.stat("deep_snapshot_diff_only_in_punchable_blocks", 1)
+						continue
+					}
 					clause := "common-snapshot-differs-between-rw-replicas"
 					for _, x := range []*repNode{rn, rws[0]} {
 						if w := cr.unalignedWriteWhileWO(x.addr, bad); w != nil {
